@@ -6,6 +6,8 @@
                         per frame object the observed TTL never increases; a processed reception is followed by a
                         strictly lower TTL at the next reception; nothing with TTL < 1 is sent or processed by a node;
                         a routing device sends a frame on with a TTL lower than the one it was handed.
+* path monitor        — which routing devices forwarded each frame object, in order (compared by the caller with the
+                        reference's best-route path when that is unambiguous).
 * termination monitor — number of interface receive events per top-level operation (bounded by the caller).
 
 A Recorder is active only while `Recorder.current` is set; otherwise the wrappers are transparent.
@@ -35,6 +37,7 @@ class Recorder:
         self.min_ttl_seen = 64
         self.ttl_drops = 0
         self.route_stack: List[Tuple[Any, int, int]] = []
+        self.fwd_path: Dict[int, Tuple[str, List[str]]] = {}  # id(frame) -> (dst ip, routing devices that sent it on)
         self.handed: List[Tuple[str, str]] = []  # (node, dst ip) of unicast frames handed to software
         self.misdelivered: List[Tuple[str, str, str, str, str]] = []  # (node, mac-match|mac-mismatch, kind, proto, msg)
         self.max_depth = 0
@@ -48,6 +51,7 @@ class Recorder:
         self.rx_events = 0
         self.node_events = 0
         self.frames = 0
+        self.fwd_path = {}
         self.handed = []
         self.misdelivered = []
 
@@ -142,6 +146,10 @@ def install():
             node = self._connected_node
             for rnode, fid, ttl_in in reversed(rec.route_stack):
                 if fid == id(frame) and rnode is node:
+                    if self.enabled:
+                        # the routing device forwards this frame: part of the frame's path
+                        rec.fwd_path.setdefault(fid, (str(frame.ip.dst_ip_address), []))[1].append(
+                            node.config.hostname)
                     if self.enabled and not frame.ip.ttl < ttl_in:
                         rec.v("ttl-not-lowered-by-routing",
                               f"{_kind(node)} was handed a frame at TTL {ttl_in} and forwards it at TTL {frame.ip.ttl}")
